@@ -63,4 +63,63 @@ DefBeforeUse(c) == LET In == AssignedIn(c) IN
 ObservedBefore(sts, j, l, sig) == \E m \in 1..(j - 1) : sts[m].k = "observe" /\ sts[m].l = l /\ sts[m].sig.name = sig
                                    /\ \A q \in (m + 1)..(j - 1) : DefsOfSt(sts[q]) # {l}
 WellFormed(c) == TargetsExist(c) /\ Terminated(c) /\ DefBeforeUse(c)
+
+(***************************************************************************)
+(* Abstract machine.  Each instruction means what its C++ printing means   *)
+(* (uigen/binding.rs): operators via Lang.tla's value algebra, property    *)
+(* reads from the heap, ObserveProperty as the emitted reconnect code.     *)
+(* mstate = [loc : local index -> value, obs : observer states, eff]       *)
+(***************************************************************************)
+ConstVal(a) == CASE a.ty = "bool" -> VBool(a.v) [] a.ty = "int" -> VInt(a.v) [] a.ty = "double" -> VDbl(a.q)
+                 [] a.ty \in {"cstr", "qstr"} -> VStr(a.v) [] a.ty = "null" -> VPtr("null") [] a.ty = "emptylist" -> VList(<<>>)
+OpVal(a, loc) == CASE a.k = "const" -> ConstVal(a)
+                   [] a.k = "enum" -> VEnum(a.e, EnumVal[a.v])
+                   [] a.k = "loc" -> loc[a.i + 1]
+                   [] a.k = "obj" -> VPtr(a.n)
+                   [] a.k = "void" -> Void
+CastName(ty) == CASE ty = "int" -> "int" [] ty = "uint" -> "uint" [] ty \in {"double", "qreal"} -> "double" [] OTHER -> "other"
+RvalVal(rv, loc, heap) ==
+  CASE rv.k = "copy" -> OpVal(rv.a, loc)
+    [] rv.k = "un" -> UnVal(rv.op, OpVal(rv.a, loc))
+    [] rv.k = "bin" -> BinVal(rv.op, OpVal(rv.a, loc), OpVal(rv.b, loc))
+    [] rv.k = "scast" -> (IF rv.ty = "void" THEN Void ELSE CastVal(CastName(rv.ty), OpVal(rv.a, loc)))
+    [] rv.k = "rprop" -> LET o == OpVal(rv.o, loc) IN
+                         IF IsUndef(o) \/ o.t # "ptr" \/ o.s = "null" THEN Undef ELSE heap[o.s][rv.p.name]
+    [] rv.k = "builtin" -> (IF rv.f \in {"Math.max", "Math.min"} THEN CallVal(rv.f, [j \in 1..Len(rv.args) |-> OpVal(rv.args[j], loc)]) ELSE Undef)
+    [] rv.k = "mcall" -> (IF rv.m.name = "isEmpty" THEN CallVal("isEmpty", <<OpVal(rv.o, loc)>>) ELSE Undef)
+    [] rv.k = "rsub" -> LET a == OpVal(rv.o, loc)  i == OpVal(rv.i, loc) IN
+                        IF IsUndef(a) \/ IsUndef(i) \/ a.t # "list" THEN Undef
+                        ELSE IF i.i < 0 \/ i.i >= Len(a.l) THEN Undef ELSE VStr(a.l[i.i + 1])
+    [] rv.k = "list" -> LET xs == [j \in 1..Len(rv.args) |-> OpVal(rv.args[j], loc)] IN
+                        IF \E j \in 1..Len(xs) : IsUndef(xs[j]) THEN Undef ELSE VList([j \in 1..Len(xs) |-> xs[j].s])
+    [] OTHER -> Undef
+\* the emitted observer code: if (!connection || object != sender) { disconnect; if (sender) connect; object = sender; }
+Observe(o, snd, sig) == IF ~o.on \/ o.obj # snd THEN [on |-> snd # "null", obj |-> snd, sig |-> sig] ELSE o
+RECURSIVE ExecStmts(_, _, _, _, _)
+\* returns [loc, obs, bad]
+ExecStmts(sts, j, loc, obs, heap) ==
+  IF j > Len(sts) THEN [loc |-> loc, obs |-> obs, bad |-> FALSE]
+  ELSE LET st == sts[j] IN
+       CASE st.k = "assign" -> LET v == RvalVal(st.rv, loc, heap) IN
+                               IF IsUndef(v) THEN [loc |-> loc, obs |-> obs, bad |-> TRUE]
+                               ELSE ExecStmts(sts, j + 1, [loc EXCEPT ![st.l + 1] = v], obs, heap)
+         [] st.k = "exec" -> ExecStmts(sts, j + 1, loc, obs, heap)
+         [] st.k = "observe" -> LET snd == loc[st.l + 1] IN
+                                IF snd.t # "ptr" THEN [loc |-> loc, obs |-> obs, bad |-> TRUE]
+                                ELSE ExecStmts(sts, j + 1, loc, [obs EXCEPT ![st.h + 1] = Observe(@, snd.s, st.sig.name)], heap)
+RECURSIVE RunFrom(_, _, _, _, _, _)
+\* result [ok, val, obs]; ok = FALSE: undefined evaluation, trap (unreachable / fuel) or a jump out of the code
+RunFrom(c, pc, loc, obs, heap, fuel) ==
+  IF fuel = 0 \/ pc < 0 \/ pc >= NB(c) THEN [ok |-> FALSE, val |-> Undef, obs |-> obs]
+  ELSE LET b == Blk(c, pc)
+           r == ExecStmts(b.st, 1, loc, obs, heap) IN
+       IF r.bad THEN [ok |-> FALSE, val |-> Undef, obs |-> r.obs]
+       ELSE CASE b.tm.k = "ret" -> [ok |-> TRUE, val |-> OpVal(b.tm.a, r.loc), obs |-> r.obs]
+              [] b.tm.k = "br" -> RunFrom(c, b.tm.t, r.loc, r.obs, heap, fuel - 1)
+              [] b.tm.k = "brc" -> RunFrom(c, IF OpVal(b.tm.c, r.loc).b THEN b.tm.t ELSE b.tm.f, r.loc, r.obs, heap, fuel - 1)
+              [] OTHER -> [ok |-> FALSE, val |-> Undef, obs |-> r.obs]
+Loc0(c) == [j \in 1..Len(c.locals) |-> Undef]
+Obs0(c) == [j \in 1..c.nobs |-> [on |-> FALSE, obj |-> "null", sig |-> ""]]
+RunTir(c, obs, heap) == RunFrom(c, 0, Loc0(c), obs, heap, 4 * NB(c) + 8)
+
 =============================================================================
